@@ -5,6 +5,7 @@ import Quanto.Spec.C02
 import Quanto.Spec.C06
 import Quanto.AwqBits
 import Quanto.AwqSelect
+import Quanto.Alias
 import Quanto.OpsWire
 import Quanto.Spec.C05
 import Quanto.Linear
@@ -167,6 +168,11 @@ def handle (toks : List String) : String :=
       | "ref" => show_ 16 (awqPackRef (mk 8))
       | "unpack2" => show_ 8 (awqUnpackV2 (mk 16))
       | _ => "bad-op"
+  -- C05: alias05 <producer>  → sharing, predicted outcome of copy_ on the other tensor, what the float program requires
+  | ["alias05", op] =>
+      match producerSharing op with
+      | none => "unknown-producer"
+      | some sh => s!"{sh.name} {(predicted sh).name} {if floatIsView op then "follows" else "unchanged"}"
   -- C15: create15 qtype dtype axis gs shape devtype cap  → class of the result of QBitsTensor.create
   | ["create15", qt, dt, axis, gs, shape, dev, cap] =>
       (createOutcome ⟨qt, dt, axis.toInt!, gs.toNat!, parseShape shape, dev, cap.toNat!⟩).show
